@@ -425,6 +425,129 @@ pub fn run_symbols(ctx: &mut Ctx, l: &Layout, init: &Case, seq: &[&Sym]) {
     ctx.continue_after_err = false;
 }
 
+/// Stores into the instruction stream: a store of every kind (byte / word / long MOV forms, bit instructions, a
+/// push, a host write between two instructions) whose target is any byte of the three instructions that follow
+/// it, code in on-chip RAM and in DRAM at both alignments modulo 4.  The instructions executed afterwards are the
+/// ones memory holds at the time they are fetched (the reference decodes from the real memory before every step).
+pub fn code_rewrite_unit() -> Unit {
+    Unit::new(
+        "code-rewrite",
+        4,
+        "a store (MOV.B through @ERd, @-ERd, @(d:16,ERd), @(d:24,ERd), @aa:16, @aa:24; MOV.W / MOV.L through @ERd; BSET / BCLR / BNOT / BST through @ERd; PUSH.L; a host write between two instructions) x target = each of the 12 bytes of the three instructions behind it (MOV.B #xx:8, MOV.W #xx:16, MOV.L #xx:32, MOV.B #xx:8 in two orders) x 3 stored values x code in on-chip RAM and DRAM x both alignments modulo 4: every following step is the instruction memory holds when it is fetched",
+        move |ctx, chunk| {
+            let isa = Isa::new();
+            let enc = |n: &str, f: Fields| isa.encode(isa.row(n), &f);
+            let base = if chunk / 2 == 0 { dom::CODE_RAM + 0x100 } else { dom::CODE_DRAM + 0x100 } + 2 * (chunk as u32 % 2);
+            let vb1 = enc("MOV.B #xx:8,Rd", Fields { rd: 13, data: 0x77, ..Default::default() });
+            let vb2 = enc("MOV.B #xx:8,Rd", Fields { rd: 14, data: 0x88, ..Default::default() });
+            let vw = enc("MOV.W #xx:16,Rd", Fields { rd: 4, data: 0x5566, ..Default::default() });
+            let vl = enc("MOV.L #xx:32,ERd", Fields { rd: 3, data: 0x1122_3344, ..Default::default() });
+            let filler = vec![0xf0u8, 0x00, 0xf0, 0x00, 0xf0, 0x00, 0xf0, 0x00];
+            // two orders: a store into the second byte of the first victim leaves a valid instruction in the first
+            // order (it is the immediate of MOV.B), a store into the later bytes hits the long immediates
+            let victim_orders: [Vec<u8>; 2] = [[vb1.clone(), vw.clone(), vl.clone(), vb2.clone(), filler.clone()].concat(), [vl, vw, vb1, vb2, filler].concat()];
+            // (name, size of the store, how the target address is passed)
+            #[derive(Clone, Copy, PartialEq)]
+            enum Via {
+                Reg,
+                PreDec,
+                D16,
+                D24,
+                A16,
+                A24,
+                Push,
+                Host,
+            }
+            let writers: [(&str, u32, Via); 15] = [
+                ("MOV.B Rs,@ERd", 1, Via::Reg),
+                ("MOV.B Rs,@-ERd", 1, Via::PreDec),
+                ("MOV.B Rs,@(d:16,ERd)", 1, Via::D16),
+                ("MOV.B Rs,@(d:24,ERd)", 1, Via::D24),
+                ("MOV.B Rs,@aa:16", 1, Via::A16),
+                ("MOV.B Rs,@aa:24", 1, Via::A24),
+                ("MOV.W Rs,@ERd", 2, Via::Reg),
+                ("MOV.W Rs,@aa:24", 2, Via::A24),
+                ("MOV.L ERs,@ERd", 4, Via::Reg),
+                ("BSET #xx:3,@ERd", 1, Via::Reg),
+                ("BCLR #xx:3,@ERd", 1, Via::Reg),
+                ("BNOT #xx:3,@ERd", 1, Via::Reg),
+                ("BST #xx:3,@ERd", 1, Via::Reg),
+                ("MOV.L ERs,@-ERd", 4, Via::Push),
+                ("MOV.B #xx:8,Rd", 1, Via::Host),
+            ];
+            for &(name, size, via) in writers.iter() {
+              for victims in victim_orders.iter() {
+                for value in [0x0bu32, 0x79, 0xf5] {
+                    for k in 0..12u32 {
+                        // the writer's own length is needed to know where the victims start: encode once with a dummy target
+                        let probe = enc(name, Fields { rs: 8, ra: 1, rd: 14, bitn: 3, data: 0x10, ..Default::default() });
+                        let v0 = base + probe.len() as u32;
+                        let target = v0 + k;
+                        if size > 1 && target % 2 != 0 {
+                            continue;
+                        }
+                        let mut er = [0x0000_0080u32, 0, 0x0041_0010, 0, 0, 0, 0, dom::STACK_RAM];
+                        er[0] = value * 0x0101_0101;
+                        let mut f = Fields { rs: if size == 4 { 0 } else if size == 2 { 0 } else { 8 }, ra: 1, rd: 14, bitn: 3, data: 0, ..Default::default() };
+                        match via {
+                            Via::Reg => er[1] = 0x5a00_0000 | target,
+                            Via::PreDec => er[1] = target + 1,
+                            Via::D16 => {
+                                er[1] = target - 0x10;
+                                f.data = 0x10;
+                            }
+                            Via::D24 => {
+                                er[1] = target.wrapping_add(0x10) & 0xffffff;
+                                f.data = 0xfffff0;
+                            }
+                            Via::A16 => {
+                                if target < 0xff8000 {
+                                    continue;
+                                }
+                                f.data = target & 0xffff;
+                            }
+                            Via::A24 => f.data = target,
+                            Via::Push => {
+                                f.ra = 7;
+                                er[7] = target + 4;
+                            }
+                            Via::Host => f.data = 0x21,
+                        }
+                        let writer = enc(name, f);
+                        if writer.len() != probe.len() {
+                            continue;
+                        }
+                        let mut prog = writer.clone();
+                        prog.extend_from_slice(victims);
+                        let mut init = Case::new(base, &[]);
+                        init.code_len = 0;
+                        init.er = er;
+                        init.ccr = 0x01;
+                        init.image.push((base, prog));
+                        let host = via == Via::Host;
+                        let total = if host { 6 } else { 5 };
+                        let mut n = 0usize;
+                        ctx.run_seq(&init, Act::Step, total, &mut |_o: &StepObs| {
+                            n += 1;
+                            if n >= total {
+                                Next::Stop
+                            } else if host && n == 1 {
+                                Next::Continue(Act::Host(target, value as u8))
+                            } else {
+                                Next::Continue(Act::Step)
+                            }
+                        });
+                        if ctx.stop {
+                            return;
+                        }
+                    }
+                }
+              }
+            }
+        },
+    )
+}
+
 pub fn units(prop: &'static str, tier: Tier) -> Vec<Unit> {
     let isa = Isa::new();
     let ls = layouts();
@@ -576,6 +699,9 @@ pub fn units(prop: &'static str, tier: Tier) -> Vec<Unit> {
                 ctx.closed_form_cost = false;
             }));
         }
+    }
+    if matches!(prop, "C01" | "C04" | "C07") {
+        units.push(code_rewrite_unit());
     }
     // ---- odd PC: the instruction executed is the one at PC & !1 (or the step is rejected)
     if matches!(prop, "C01" | "C02" | "C03" | "C04" | "C07") {
